@@ -36,8 +36,9 @@ func PlanCases(prop, tier string, seed int64) (cases []*Case, rule []string) {
 	case "C02":
 		add(n(140, 2000), "build 1-4 batches, merge them (also merges of merges) with random deletions and dump the result", func() *Case { return g.MergeObs() })
 		add(n(12, 150), "segments with identical field lists merged without deletions (stored-field byte-copy path across 128-document blocks)", func() *Case { return g.CopyPathMerge() })
-		add(n(2, 20), "a 1030-1230 document segment (several doc-value chunks) merged with deletions", func() *Case { return g.BigMerge() })
+		add(n(4, 40), "a 1,030-2,400 document segment merged with deletions (several doc-value chunks; dense terms whose cardinality crosses 1,024 through the deletions; an empty doc-value chunk)", func() *Case { return g.BigMerge() })
 		add(n(20, 300), "the byte layout the merger writes compared with the model's", func() *Case { return g.LayoutCase(false) })
+		add(n(2, 20), "merges whose term cardinalities sit around the 1,024-posting boundary of the adaptive chunk mode (above, crossing through the deletions, an empty first term after a long last term)", func() *Case { return g.ChunkBoundaryMerge() })
 	case "C03":
 		add(n(140, 2000), "merge with random deletion sets (nil, empty, sparse, dense, everything) and report DocumentNumbers", func() *Case { return g.MergeObs() })
 		add(n(12, 150), "segments with identical field lists merged without deletions (byte-copy path across 128-document blocks): content at the reported numbers", func() *Case { return g.CopyPathMerge() })
@@ -46,6 +47,7 @@ func PlanCases(prop, tier string, seed int64) (cases []*Case, rule []string) {
 		add(n(110, 1500), "build or merge, dump, reload from memory and from a file, re-persist the loaded segment, dump each", func() *Case { return g.PersistLoad() })
 	case "C05":
 		add(n(150, 2500), "a built/loaded/merged segment and 8 iterators with random exclusions, flags, Next/Advance sequences", func() *Case { return g.IterCase(8) })
+		add(n(2, 20), "merges whose term cardinalities sit around the 1,024-posting boundary of the adaptive chunk mode (writer and reader must derive the same chunk size)", func() *Case { return g.ChunkBoundaryMerge() })
 	case "C13":
 		add(n(150, 2500), "histories of 14 lookups reusing postings lists and iterators across terms, encodings and flags", func() *Case { return g.IterCase(14) })
 		add(n(40, 600), "doc-value readers reused across visit sequences", func() *Case { return g.DVCase(false) })
@@ -60,19 +62,23 @@ func PlanCases(prop, tier string, seed int64) (cases []*Case, rule []string) {
 		add(n(120, 1800), "doc-value readers over field subsets, forward/backward/random visits", func() *Case { return g.DVCase(false) })
 		add(n(3, 40), "the same on 1030-2230 documents (several 1024-document chunks)", func() *Case { return g.DVCase(true) })
 		add(n(2, 30), "2100-3000 documents with a whole 1024-document chunk empty in one field; one reader hops chunk A, the empty chunk, chunk A", func() *Case { return g.DVHop() })
+		add(n(3, 30), "merges of 1,030-2,400 document segments (dense terms, a doc-value chunk without one field) dumped completely", func() *Case { return g.BigMerge() })
 	case "C08":
 		add(n(150, 2500), "dictionary enumeration with key ranges and prefix automata, Contains", func() *Case { return g.DictCase() })
+		add(n(25, 300), "PostingsList lookups of known, unknown-term and unknown-field entries through reused lists (an unknown term yields an empty list whatever was looked up before)", func() *Case { return g.IterCase(10) })
 	case "C16":
 		add(n(120, 2000), "CollectionStats of every field of built, merged and reloaded segments", func() *Case { return g.StatsCase() })
 	case "C11":
 		add(n(60, 800), "persist every built, merged and reloaded segment of a random merge tree; the model parses the footer of the real bytes and recomputes the CRC-32; loaded segments are persisted again", func() *Case { return g.FooterCase() })
 	case "C17":
+		add(n(3, 30), "single-segment and two-segment merges of 1,030-2,400 document segments (dense terms above 1,024 postings with deletions, an empty doc-value chunk): the model is the flat merge", func() *Case { return g.BigMerge() })
 		add(n(70, 900), "2-4 built segments with random deletions: flat merge, two left bracketings (deletions inside / translated through DocumentNumbers), right bracketing, single-segment merges; full dumps of all variants", func() *Case { return g.AssocCase() })
 	case "C18":
 		add(n(150, 2500), "DocsMatchingTerms over mixed, repeated, unknown-field and unknown-term lists", func() *Case { return g.DocsMatchingCase() })
 	case "C10":
 		add(n(60, 800), "every segment of a random merge tree written by the current code, parsed by the frozen reference's structural dumper and compared with the layout the Coq model of the pinned format predicts", func() *Case { return g.LayoutCase(false) })
 		add(n(2, 20), "the same for a 1030-1430 document segment and its merge (adaptive chunk sizes, several stored blocks and doc-value chunks)", func() *Case { return g.LayoutCase(true) })
+		add(n(1, 10), "a merge whose term cardinalities sit around the 1,024-posting boundary of the adaptive chunk mode", func() *Case { return g.ChunkBoundaryMerge() })
 		add(n(30, 400), "build or merge, dump, reload from memory and from a file (the model-compared part: the current code round-trips its own files)", func() *Case { return g.PersistLoad() })
 	case "C12":
 		add(n(20, 300), "merge and persist workloads whose complete output is compared with the model (the fault-free baseline of the fault enumeration)", func() *Case { return g.PersistLoad() })
@@ -110,7 +116,7 @@ func NontrivialTags(prop string) map[string]bool {
 	case "C01":
 		set("multi_chunk", "repeated_field", "composite_loc")
 	case "C02":
-		set("multi_chunk", "merge_of_merge", "drops_and_survivors")
+		set("multi_chunk", "merge_of_merge", "drops_and_survivors", "chunk_boundary")
 	case "C03":
 		set("drops_and_survivors", "zero_survivors", "copy_path")
 	case "C04":
@@ -126,7 +132,7 @@ func NontrivialTags(prop string) map[string]bool {
 	case "C08":
 		set("merged", "loaded", "built")
 	case "C16":
-		set("merge", "drops_and_survivors")
+		set("merge", "drops_and_survivors", "wide_counts")
 	case "C11":
 		set("repersist_loaded")
 	case "C10":
